@@ -138,6 +138,7 @@ func TestVerif_C13(t *testing.T) {
 	seed := vh.Seed()
 	sp := vfxDefaultSpec("c13", 2, seed)
 	sp.NumSlots, sp.Gsfa, sp.MaxTx, sp.MaxEntries = 10, true, 2, 2
+	sp.FirstRel = vfxEpochLen - 10 // the last block sits in the LAST slot of the epoch: its block time is the last 4 bytes of the table
 	truths, err := vfxBuild([]vfxSpec{sp})
 	if err != nil || truths[0].BuildErr != "" {
 		t.Fatalf("setup failed: %v %s", err, truths[0].BuildErr)
@@ -388,10 +389,7 @@ func TestVerif_C13(t *testing.T) {
 			bounds = append(bounds, 46+4*int(b.Slot-tr.base()), 46+4*int(b.Slot-tr.base())+4)
 		}
 		for _, cut := range x.cuts(len(data), append(bounds, 14, 22, 30, 38, 46), sample/3) {
-			for bi, b := range tr.Blocks {
-				if bi > 5 {
-					break
-				}
+			for _, b := range tr.Blocks {
 				r := &vc13Reader{data: data[:cut]}
 				x.observe("slot-to-blocktime", cut, len(data), fmt.Sprint(b.Slot), fmt.Sprintf("v:%d", b.Blocktime), look(r, b.Slot), r)
 			}
